@@ -120,6 +120,24 @@ def run(ctx):
 
     spam_queue()
 
+    # ---- (group spk) the controller's translation of the L2Advertisements into the entry's interface set:
+    # speaker harness TestVerifSpk (real controller + real layer2Controller + real Announce), histories with several
+    # advertisements per pool with different node selections and interface lists; oracle: the interfaces of every
+    # announcer entry are those of the advertisements selecting THIS node.  Only that signature is taken here.
+    spk_ov = {"internal/layer2/zz_verif_spk.go": os.path.join(vlib.VERIF, "harness", "internal", "layer2", "zz_verif_spk.go")}
+    recs, okrun, log = ctx.go_harness("speaker", ["zz_verif_bgp_test.go", "zz_verif_spk_test.go"], "TestVerifSpk$",
+                                      n=30 if not thorough else 400, seed=ctx.seed, tag="spk", extra_overlay=spk_ov)
+    for r in recs:
+        if r.get("t") == "fail" and r.get("sig") == "l2-entry-interfaces-differ-from-advertisements":
+            ctx.oracle_fail(r["sig"], r.get("what", ""), r.get("replay"))
+        elif r.get("t") == "stat" and r["k"].startswith("l2_interface_checks"):
+            st["spk:" + r["k"]] = st.get("spk:" + r["k"], 0) + r["v"]
+    if not okrun and not any("does not build" in c for c in ctx.corr_broken):
+        ctx.corr_broken.append("harness TestVerifSpk (controller part of C13) failed: " + log[-1500:])
+    if st.get("spk:l2_interface_checks_with_lists", 0) == 0 and not ctx.violations and not ctx.replay_in:
+        raise vlib.Broken("speaker harness degenerate: no layer-2 entry with an interface list was checked: %r" % st)
+    # ---- end of the group spk block
+
     # the REAL spam loop (1.1 s ticker): repeats on the responders the latest advertisement covers, silent after the last withdraw
     recs, okrun, log = ctx.go_harness(PKG, FILES, "TestVerifSpamLoop$", seed=ctx.seed, tag="sl", timeout=300)
     for r in recs:
